@@ -406,3 +406,35 @@ Example C09_nonvacuous_script :
   script_np (CConst (VInt 3) 2) [KMat; KFn Mul2; KMat; KReread 0; KLen 3; KCopy; KMat]
   = [Ok ([VInt 3; VInt 3], DInt); Ok ([VInt 6; VInt 6], DInt); Ok ([VInt 3; VInt 3], DInt); Ok ([VInt 6; VInt 6; VInt 6], DInt)].
 Proof. split; vm_compute; reflexivity. Qed.
+
+(* ---- F. Round 7: object arrays (a null anywhere in the list) keep every element as the Python object it is ---- *)
+
+(* numpy.array of a list holding a null is an object array of exactly the same elements: nothing is unified - an int next
+   to a float stays an int (2^53+1 exactly), a bool next to an int stays a bool, a number next to text stays a number.
+   (Integers outside int64 are outside the model, as everywhere.) *)
+Theorem C09_np_array_keeps_objects :
+  forall (l : list val),
+  In VNull l -> (forall z, In (VInt z) l -> in_int64 z = true) -> np_array l = Ok (DObj, l).
+Proof. exact np_array_keeps_objects. Qed.
+Print Assumptions C09_np_array_keeps_objects.
+
+(* End to end for the usual sparse column (null default) over such a list, whatever kinds it mixes: if it answers at all,
+   the expansion is the input list itself - same length, same order, every element the same value of the same kind - and
+   the stored form is the Part-1 sparse encoding of the list. *)
+Theorem C09_sparse_object_null_exact :
+  forall (l : list val) (o : obs),
+  In VNull l -> (forall z, In (VInt z) l -> in_int64 z = true) ->
+  sparse_np l VNull None = Ok o ->
+  exists idx vals dt, o = mkobs [vals; l] [idx] [DObj; dt] /\
+                      (idx, vals, length l) = sparse_encode (np_neqb DObj) l VNull.
+Proof. exact sparse_object_null_exact. Qed.
+Print Assumptions C09_sparse_object_null_exact.
+
+(* non-vacuity: the seeded change's inputs expand exactly in the model (and the column does answer) *)
+Example C09_nonvacuous_object_arrays :
+  sparse_np [VInt 1; VNull; VFloat (FFin 5 (-1)); VNull; VInt 3] VNull None
+  = Ok (mkobs [[VInt 1; VFloat (FFin 5 (-1)); VInt 3]; [VInt 1; VNull; VFloat (FFin 5 (-1)); VNull; VInt 3]] [[0; 2; 4]] [DObj; DObj]) /\
+  (exists o, sparse_np [VBool true; VNull; VInt 2; VStr [97%N]; VInt (2 ^ 53 + 1)] VNull None = Ok o /\
+             nth 1 (o_vals o) [] = [VBool true; VNull; VInt 2; VStr [97%N]; VInt (2 ^ 53 + 1)]) /\
+  np_array [VInt 1; VStr [97%N]; VNull] = Ok (DObj, [VInt 1; VStr [97%N]; VNull]).
+Proof. split; [vm_compute; reflexivity|]. split; [eexists; split; vm_compute; reflexivity | vm_compute; reflexivity]. Qed.
